@@ -287,6 +287,11 @@ class UserCode:
         for k, w in self.benign_sites:
             if (body.key == k or body.key == self.prog.folded.get(k)) and what.startswith(w):
                 return True
+            if "::{closure" in k and what.startswith(w):
+                root = k.split("::{closure")[0]
+                tgt = self.prog.folded.get(root)
+                if tgt and body.key.startswith(tgt + "::{closure"):
+                    return True   # the helper (and its closure) was inlined into its only caller
         return False
 
     # -- direct classification of one terminator (ignoring callee summaries)
